@@ -151,6 +151,7 @@ type replayFile struct {
 	Key      string `json:"key"`
 	Detail   string `json:"detail"`
 	Race     bool   `json:"race,omitempty"`
+	Arch     string `json:"arch,omitempty"`
 }
 
 func cmdReplay(args []string) int {
@@ -216,6 +217,7 @@ type knownFile struct {
 
 type childOutcome struct {
 	idx      int
+	altBin   string // binary this child ran in when it is not the parent's own (the GOARCH=386 build)
 	race     bool
 	maxprocs int
 	res      *core.Result
@@ -234,6 +236,7 @@ func cmdRun(args []string) int {
 	root := fs.String("root", "/verif", "")
 	repo := fs.String("repo", "/repo", "source tree of the library under test (scanned for environment variable names only)")
 	racebin := fs.String("racebin", "", "")
+	bin386 := fs.String("bin386", "", "the same harness built with GOARCH=386 (optional): a sample of the cases is re-run in it")
 	jobs := fs.Int("jobs", 0, "")
 	fs.Parse(args)
 
@@ -354,6 +357,17 @@ func cmdRun(args []string) int {
 		go runChild(o, self, []string{"-batch", fmt.Sprint(i), "-nbatches", fmt.Sprint(nb)}, env, watchdog)
 	}
 	wg.Wait()
+
+	// 32-bit pass: a sample of the same case lists (4 of 4*jobs partitions) in a GOARCH=386 build of harness
+	// and library - int is 32 bits wide there, which is where conversions and shifts that are fine on amd64 go wrong
+	if *bin386 != "" {
+		for i := 0; i < 4; i++ {
+			wg.Add(1)
+			o := &childOutcome{idx: 100 + i, altBin: *bin386}
+			go runChild(o, *bin386, []string{"-batch", fmt.Sprint(i), "-nbatches", fmt.Sprint(nb * 4)}, nil, watchdog)
+		}
+		wg.Wait()
+	}
 
 	// race pass (sequential over GOMAXPROCS settings: each run wants the whole machine)
 	var raceLogs []string
@@ -527,7 +541,7 @@ func cmdRun(args []string) int {
 		os.MkdirAll(repDir, 0o755)
 		h := sha1.Sum([]byte(k))
 		rp := filepath.Join(repDir, hex.EncodeToString(h[:6])+".json")
-		rf := replayFile{Property: *prop, Tier: *tier, Seed: seed, Monitor: v.Monitor, Case: v.Case, Key: k, Detail: v.Detail, Race: v.Monitor == "race" || strings.HasPrefix(v.Monitor, "race")}
+		rf := replayFile{Property: *prop, Tier: *tier, Seed: seed, Monitor: v.Monitor, Case: v.Case, Key: k, Detail: v.Detail, Race: v.Monitor == "race" || strings.HasPrefix(v.Monitor, "race"), Arch: v.Arch}
 		b, _ := json.MarshalIndent(rf, "", " ")
 		os.WriteFile(rp, b, 0o644)
 		if newViol <= 60 {
@@ -708,6 +722,9 @@ func confirmDeath(self, racebin, work, prop, tier string, seed uint64, o *childO
 		return prop + "|crash|startup", fmt.Sprintf("worker %d died before its first case: %v\n%s", o.idx, o.err, o.logTail), ""
 	}
 	bin := self
+	if o.altBin != "" {
+		bin = o.altBin
+	}
 	extra := []string{}
 	env := []string{}
 	if o.race {
